@@ -204,7 +204,8 @@ def run_config(v, ctx, tftpd, thorough, names, cfgname, dist, ow, rng):
     all_names = names + extra + rnd
     use_strace = thorough and cfgname in ("shared", "distinct+overwrite")
     strace_path = os.path.join(sb["logs"], "strace.out") if use_strace else None
-    srv = N.Server(tftpd, sb["srv"], overwrite=ow, send_dir=sb["srv"] if dist else None, recv_dir=sb["rcv"] if dist else None, logdir=sb["logs"], strace=strace_path, shuffle=rng, d_last=(cfgname == "distinct"))
+    slash = "/" if "trailing-slash" in cfgname else ""
+    srv = N.Server(tftpd, sb["srv"] + slash, overwrite=ow, send_dir=(sb["srv"] + slash) if dist else None, recv_dir=(sb["rcv"] + slash) if dist else None, logdir=sb["logs"], strace=strace_path, shuffle=rng, d_last=(cfgname == "distinct"))
     with srv:
         for kind in ("RRQ", "WRQ"):
             B = 24
@@ -281,10 +282,11 @@ def run(tier):
     samples = []
     classes = {}
     strace_seen = 0
-    configs = [("shared", False, False), ("distinct", True, False), ("shared+overwrite", False, True), ("distinct+overwrite", True, True)]
+    configs = [("shared", False, False), ("distinct", True, False), ("shared+overwrite", False, True), ("distinct+overwrite", True, True),
+               ("shared/trailing-slash", False, False), ("distinct/trailing-slash", True, True)]
     import concurrent.futures
     import random
-    with concurrent.futures.ThreadPoolExecutor(max_workers=4) as ex:
+    with concurrent.futures.ThreadPoolExecutor(max_workers=6) as ex:
         futs = [ex.submit(run_config, v, ctx, tftpd, thorough, names, cfgname, dist, ow, random.Random(C.seed() * 7919 + i)) for i, (cfgname, dist, ow) in enumerate(configs)]
         for f in futs:
             e, d, sm, cl, ss = f.result()
